@@ -942,6 +942,11 @@ class ApiRun:
         if sum(1 for x in s.method if U.snake(x.name) == U.snake(m.name)) > 1:
             known = "stubs.rpc_names_equal_after_snake_case"
         e = o.get("error") or {}
+        if param in (o.get("none_kwargs") or []):
+            # the zero value of this field reads as None (google.protobuf.Value and the like): no flattened argument was given,
+            # so this is not a mixed call; nothing to judge
+            ctx.features["zero value is None: not a mixed call (skipped)"] += 1
+            return
         if o["ok"] or e.get("exception") != "ValueError" or "individual field arguments" not in e.get("message", "") or o["calls"]:
             ctx.violation(f"{s.name}.{m.name} ({variant}): a request ({sp}) together with {param}=<the zero value of its type> was not refused "
                           f"with ValueError before sending (ok={o['ok']}, error={e.get('exception')}, calls={len(o['calls'])})", case, known)
